@@ -1632,16 +1632,20 @@ func modeServer(r *vlib.Run) {
 			ls := &liveStream{req: reqs[i], st: vlib.NewStream(context.Background(), "u"), done: make(chan error, 1)}
 			streams[i] = ls
 			ls.st.Push(ls.req.pb())
+			// returned: the handler is gone (no point in waiting out the watchdog for its sync response)
+			returned, markReturned := context.WithCancel(wd)
+			defer markReturned()
 			go func() {
 				var err error
 				if pan := guard(func() { err = srv.Subscribe(ls.st) }); pan != "" {
 					err = fmt.Errorf("panic: %s", pan)
 				}
 				ls.done <- err
+				markReturned()
 			}()
 			// Registration is complete once the sync response of an
 			// updates_only subscription was sent.
-			if !ls.st.WaitSent(wd, func(sent []*pb.SubscribeResponse) bool { return len(sent) >= 1 }) {
+			if !ls.st.WaitSent(returned, func(sent []*pb.SubscribeResponse) bool { return len(sent) >= 1 }) {
 				select {
 				case err := <-ls.done:
 					if err != nil && strings.HasPrefix(err.Error(), "panic: ") {
